@@ -8,6 +8,9 @@ package kdcproxy
 //@   assigns #asn1OK, #asn1RestLen
 //@   ensures[C20] strict: err == nil ==> msg != nil && fresh(msg) && #asn1OK && #asn1RestLen == 0
 //@   ensures[C20] failed: err != nil ==> msg == nil
+// the wire format is derived from the struct tags: KDC-PROXY-MESSAGE as MS-KKDCP defines it (explicit tags,
+// target-domain a GeneralString); that these tags decode the standard encoding is conformance-tested
+//@   ensures[C20] wire: structTag(KdcProxyMsg, "Message", "asn1") == "tag:0,explicit" && structTag(KdcProxyMsg, "Realm", "asn1") == "tag:1,optional,explicit,generalstring" && structTag(KdcProxyMsg, "Flags", "asn1") == "tag:2,optional,explicit"
 //@   nopanic[C10]
 
 //@ func encode
